@@ -971,6 +971,13 @@ func (ctx *RenderContext) EvaluateExpression(node Node) (interface{}, error) {
 			return nil, err
 		}
 
+		// parent() answers with a function that still has to run in a render context (the
+		// extension that implements it has none). Run it here, so that the call has its value
+		// wherever it is written, not only directly in a print tag
+		if parentFunc, ok := result.(func(*RenderContext) (interface{}, error)); ok {
+			return parentFunc(ctx)
+		}
+
 		// Make sure function results that should be iterable actually are
 		if result == nil && (n.name == "range" || n.name == "length") {
 			return []interface{}{}, nil
